@@ -1,5 +1,6 @@
 #![allow(clippy::all)]
 #![allow(dead_code)]
+mod alloc;
 mod dump;
 mod engine;
 mod model;
@@ -10,6 +11,9 @@ mod seq;
 mod world;
 
 use engine::*;
+
+#[global_allocator]
+static GLOBAL: alloc::Counting = alloc::Counting;
 use std::path::PathBuf;
 
 fn usage() -> i32 {
